@@ -217,7 +217,7 @@ class SceneGraph:
           Copy of current object.
         """
         # create a copy without transferring cache
-        copied = SceneGraph()
+        copied = SceneGraph(repair_rigid=self.repair_rigid)
         copied.base_frame = deepcopy(self.base_frame)
         copied.transforms = deepcopy(self.transforms)
         return copied
